@@ -115,7 +115,7 @@ def _motif(ctx):
     r = ctx.r
     cfg = ctx.cfg
     ops = []
-    m = r.randrange(8 if ctx.faults else 6)
+    m = r.choice([0, 1, 2, 3, 4, 5, 8, 9, 10, 11, 12] + ([6, 7] if ctx.faults else []))
     s = r.randrange(ctx.sets_used) * ctx.block
     blk = lambda i: (ctx.base + i * ctx.set_stride + s) & 0xFFFFFFFF  # noqa: E731
     if m == 0:  # fill every way of a set, touch the ways in a chosen order, force one eviction
@@ -161,6 +161,59 @@ def _motif(ctx):
     elif m == 5:  # uncounted read that misses, then the counted one
         a = blk(r.randrange(ctx.nblocks))
         ops += [["R", 4, a, 0], ["R", 4, a, 1]]
+    elif m == 8:  # sub-word write miss into a set whose ways are all dirty, then everything read back
+        n = cfg["ways"]
+        for i in range(n):
+            ops.append(["W", 4, blk(i) + 4 * r.randrange(1 << cfg["bb"]), ctx.value(4)])
+        w = r.choice([1, 2])
+        a = blk(n) + 4 * r.randrange(1 << cfg["bb"])
+        ops.append(["W", w, a + r.choice([0, 2] if w == 2 else [0, 1, 2, 3]), ctx.value(w)])
+        ops.append(["R", 4, a, 1])
+        for i in range(n):
+            for k in range(1 << cfg["bb"]):
+                ops.append(["R", 4, blk(i) + 4 * k, r.choice([0, 1, 1])])
+    elif m == 9:  # every word of one block written with mixed widths, evicted by reads, read back word by word
+        a = blk(0)
+        for k in range(1 << cfg["bb"]):
+            w = r.choice([1, 2, 4])
+            ops.append(["W", w, a + 4 * k + (r.choice([0, 2]) if w == 2 else r.randrange(4) if w == 1 else 0), ctx.value(w)])
+        for i in range(1, cfg["ways"] + 1):
+            ops.append(["R", r.choice([1, 2, 4]), blk(i), 1])
+        for k in range(1 << cfg["bb"]):
+            ops.append(["R", 4, a + 4 * k, 1])
+    elif m == 10:  # the tables are looked at between filling a set and choosing a victim in it
+        n = cfg["ways"]
+        for i in range(n):
+            ops.append([r.choice(["R", "W"]), 4, blk(i), 1])
+            if ops[-1][0] == "W":
+                ops[-1][3] = ctx.value(4)
+        order = list(range(n))
+        r.shuffle(order)
+        for i in order[: r.randint(1, n)]:
+            ops.append(["R", 4, blk(i), 1])
+        ops.append(["INSPECT"])
+        ops.append([r.choice(["R", "W"]), 4, blk(n), 1])
+        if ops[-1][0] == "W":
+            ops[-1][3] = ctx.value(4)
+        ops.append(["INSPECT"])
+        for i in range(n + 1):
+            ops.append(["R", 4, blk(i), 1])
+    elif m == 11:  # dirty block evicted by *uncounted* reads, then read back
+        a = blk(0) + 4 * r.randrange(1 << cfg["bb"])
+        ops.append(["W", r.choice([1, 2, 4]), a - a % 4, 0])
+        ops[-1][3] = ctx.value(ops[-1][1])
+        for i in range(1, cfg["ways"] + 1):
+            ops.append(["R", 4, blk(i), 0])
+        ops += [["R", 4, a - a % 4, 1], ["R", 4, blk(1), 1]]
+    elif m == 12:  # dirty blocks, reset, the same addresses again
+        n = r.randint(1, cfg["ways"])
+        for i in range(n):
+            ops.append(["W", 4, blk(i), ctx.value(4)])
+        ops.append(["RESET"])
+        for i in range(n):
+            ops.append(["R", 4, blk(i), 1])
+        ops.append(["W", 2, blk(0), ctx.value(2)])
+        ops.append(["R", 4, blk(0), 1])
     elif m == 6:  # word-crossing access once on a resident block ...
         a = blk(0)
         ops.append(["R", 4, a, 1])
